@@ -57,6 +57,7 @@ __CPROVER_assigns(g_rq_shape == 2: C2->rqnode)
 __CPROVER_assigns(g_rp_shape == 1: P1->rnode)
 __CPROVER_frees(RM, RM->m_body.ch_buf)
 __CPROVER_ensures(VP_NO_LOCK_HELD)
+#ifndef RP_MIN
 /* exactly one outcome */
 __CPROVER_ensures(R_O_DISCONN || R_O_DROPPED || R_O_DISCARD || R_O_HELD || R_O_DELIVERED)
 /* which one, for an open pipe: malformed/too long are decided by the body alone; an
@@ -93,6 +94,7 @@ __CPROVER_ensures(R_O_DELIVERED ==> (RR_NO_END_BELOW(C1->btrace_len / 4 - 1) && 
 __CPROVER_ensures((R_O_DELIVERED && g_k >= C1->btrace_len && g_k < ROLDLEN) ==> OLD(RM)->m_body.ch_ptr[g_k - C1->btrace_len] == g_b)
 /* the pipes already holding requests are not disturbed by delivery */
 __CPROVER_ensures((!R_O_HELD && OLD(g_rp_shape) == 1) ==> LIST_IS_ONE(&RS->recvpipes, &P1->rnode))
+#endif
 ;
 #endif
 /* clang-format on */
